@@ -50,6 +50,68 @@ class UserExc(Exception):
         self.tag = tag
 
 
+class _Tagged:
+    """user exceptions of several builtin families (a callback may raise anything)"""
+    def __init__(self, tag):
+        super().__init__(tag)
+        self.tag = tag
+
+
+class UserKeyError(_Tagged, KeyError):
+    pass
+
+
+class UserValueError(_Tagged, ValueError):
+    pass
+
+
+class UserRuntimeError(_Tagged, RuntimeError):
+    pass
+
+
+class UserNotImplemented(_Tagged, NotImplementedError):
+    pass
+
+
+class UserAttributeError(_Tagged, AttributeError):
+    pass
+
+
+class UserLookupError(_Tagged, LookupError):
+    pass
+
+
+EXC_KINDS = [UserExc, UserKeyError, UserValueError, UserRuntimeError, UserExc, UserNotImplemented, UserAttributeError,
+             UserLookupError, UserExc, UserExc]
+
+
+def user_exc(tag):
+    """the exception class is a function of the tag (1..9), so a scenario replays exactly"""
+    return EXC_KINDS[tag % len(EXC_KINDS)](tag)
+
+
+class EqTag:
+    """carries the harness's trigger number through `**kwargs` while comparing (and hashing) equal to
+    every other tag: two sends of one event stay *value-equal* — they are still two events"""
+    __slots__ = ("n",)
+
+    def __init__(self, n):
+        self.n = n
+
+    def __eq__(self, other):
+        return isinstance(other, EqTag)
+
+    def __hash__(self):
+        return 1
+
+    def __repr__(self):
+        return "EqTag"
+
+
+def tid_of(v):
+    return v.n if isinstance(v, EqTag) else v
+
+
 # ----------------------------------------------------------------------------- scenario
 
 @dataclass
@@ -110,7 +172,7 @@ class Scn:
 
     # -- derived
     def is_async(self):
-        return any(c.coro for c in self.cbs if self._cb_live_at_ctor(c) and self._cb_bound(c))
+        return any(c.coro and c.wrap != "lazy" for c in self.cbs if self._cb_live_at_ctor(c) and self._cb_bound(c))
 
     def _cb_bound(self, c):
         """an event-named convention callback exists for the library only if some transition carries the event"""
@@ -415,7 +477,7 @@ class Runtime:
 
     def exc_s(self, e):
         from statemachine.exceptions import InvalidDefinition, InvalidStateValue, TransitionNotAllowed
-        if isinstance(e, UserExc):
+        if isinstance(e, (UserExc, _Tagged)):
             return f"user:{e.tag}"
         if isinstance(e, TransitionNotAllowed):
             return f"notallowed:{self.ev_id(e.event)}:{self.state_idx(e.state)}"
@@ -432,13 +494,13 @@ def extract(c: Cb, args, kw):
     if c.sig == "ed":
         ed = kw["event_data"]
         got = {"event": ed.event, "source": ed.source, "target": ed.target, "state": ed.state,
-               "_tid": ed.trigger_data.kwargs.get("_tid")}
+               "_tid": tid_of(ed.trigger_data.kwargs.get("_tid"))}
     elif c.sig == "kwargs":
         got = {k: kw[k] for k in ("event", "source", "target", "state") if k in kw}
-        got["_tid"] = kw.get("_tid")
+        got["_tid"] = tid_of(kw.get("_tid"))
     else:
         got = {k: kw[k] for k in c.named if k in kw}
-        got["_tid"] = kw.get("_tid")
+        got["_tid"] = tid_of(kw.get("_tid"))
     return got
 
 
@@ -460,7 +522,11 @@ def make_fn(rt: Runtime, c: Cb, with_self: bool):
         names = [p.split("=")[0] for p in params]
         collect = "dict(" + ", ".join(f"{n}={n}" for n in names) + ")"
     me = ", self" if with_self else ""
-    if c.coro:
+    if c.coro and c.wrap == "lazy":
+        # a plain function that hands back an awaitable (e.g. delegates to a coroutine function): the async
+        # engine awaits whatever a callback returns
+        src = f"def {c.name}({', '.join(head)}):\n    return _abody({collect}{me})\n"
+    elif c.coro:
         src = (
             f"async def {c.name}({', '.join(head)}):\n"
             f"    return await _abody({collect}{me})\n"
@@ -491,7 +557,7 @@ def make_fn(rt: Runtime, c: Cb, with_self: bool):
         if hook is not None:
             hook(c.id, tid)
         if rz is not None:
-            raise UserExc(rz)
+            raise user_exc(rz)
         rt.lines.append(f"E {tid} {ph} {c.id} {rp(POOL[ret])}")
         return POOL[ret]
 
@@ -511,14 +577,14 @@ def make_fn(rt: Runtime, c: Cb, with_self: bool):
         for _ in range(c.yields):
             await asyncio.sleep(0)
         if rz is not None:
-            raise UserExc(rz)
+            raise user_exc(rz)
         rt.lines.append(f"E {tid} {ph} {c.id} {rp(POOL[ret])}")
         return POOL[ret]
 
     ns = {"_body": _body, "_abody": _abody}
     exec(src, ns)
     fn = ns[c.name]
-    if c.wrap:
+    if c.wrap in ("wraps", "sig"):
         fn = (_deco_async if c.coro else _deco_sync)(fn)
         if c.wrap == "sig":
             import inspect
@@ -548,7 +614,7 @@ def _deco_async(f):
 def nested_send(rt: Runtime, e):
     tid = rt.next_tid
     rt.next_tid += 1
-    return rt.sm.send(EVENTS[e] if e < len(EVENTS) else f"unk{e}", _tid=tid)
+    return rt.sm.send(EVENTS[e] if e < len(EVENTS) else f"unk{e}", _tid=EqTag(tid))
 
 
 def build(scn: Scn, rt: Runtime, cls_name=None, picklable=False):
@@ -633,6 +699,9 @@ def build(scn: Scn, rt: Runtime, cls_name=None, picklable=False):
         return self.__dict__.get("_st")
 
     def _set(self, v):
+        if v is None and "_st" not in self.__dict__:   # `statemachine.model.Model.__init__` presets None
+            self.__dict__["_st"] = v
+            return
         self.__dict__["_st"] = v
         rt.lines.append(f"T {rp(v)}")
 
@@ -642,7 +711,11 @@ def build(scn: Scn, rt: Runtime, cls_name=None, picklable=False):
     elif scn.model_shape == "boolF":
         model_ns["__bool__"] = lambda self: False
     suffix = "_" + cls.__name__ if picklable else ""
-    model_cls = type("Mdl" + suffix, (), model_ns)
+    mbase = ()
+    if scn.model_shape == "lib":           # a user model that extends the library's own Model class
+        from statemachine.model import Model as _LibModel
+        mbase = (_LibModel,)
+    model_cls = type("Mdl" + suffix, mbase, model_ns)
     listeners = {}
     lclasses = []
     factories = {}
@@ -650,6 +723,9 @@ def build(scn: Scn, rt: Runtime, cls_name=None, picklable=False):
     if scn.listener_kind == "eq":          # distinct listener objects that compare (and hash) equal
         lbase = (type("EqBase" + suffix, (), {"__eq__": lambda a, b: hasattr(b, "_verif_eq"), "__hash__": lambda a: 7,
                                                "_verif_eq": True}),)
+        lclasses.append(lbase[0])
+    if scn.listener_kind == "falsy":       # listeners that are falsy objects (empty containers)
+        lbase = (type("FalsyBase" + suffix, (), {"__len__": lambda a: 0}),)
         lclasses.append(lbase[0])
     hooks_cls = type("Hooks" + suffix, (), {"__init__": lambda self, **k: self.__dict__.update(k)})
     if hooks:
@@ -724,8 +800,10 @@ class Session:
             kw["start_value"] = POOL[scn.start]
         if scn.state_field != "state":
             kw["state_field"] = scn.state_field
+        self.ctor_list = [self.listeners[p] for p in scn.listeners_ctor]
+        self.ctor_len = len(self.ctor_list)
         self.cls(rt.model, rtc=scn.rtc, allow_event_without_transition=scn.allow,
-                 listeners=[self.listeners[p] for p in scn.listeners_ctor], **kw)
+                 listeners=self.ctor_list, **kw)
         rt.bound = type("Bound", (), {})()
         rt.sm.bind_events_to(rt.bound)
         return None
@@ -744,19 +822,19 @@ class Session:
         sm = rt.sm
         declared = name in type(sm)._events
         if style == "method" and declared:
-            return getattr(sm, name)(_tid=tid)
+            return getattr(sm, name)(_tid=EqTag(tid))
         if style == "events" and declared:
-            return next(x for x in sm.events if x == name)(_tid=tid)
+            return next(x for x in sm.events if x == name)(_tid=EqTag(tid))
         if style == "allowed":
             try:
                 cands = [x for x in sm.allowed_events if x == name]
             except Exception:
                 cands = []
             if cands:
-                return cands[0](_tid=tid)
+                return cands[0](_tid=EqTag(tid))
         if style == "bound" and declared and hasattr(rt.bound, name):
-            return getattr(rt.bound, name)(_tid=tid)
-        return sm.send(name, _tid=tid)
+            return getattr(rt.bound, name)(_tid=EqTag(tid))
+        return sm.send(name, _tid=EqTag(tid))
 
     def do_op(self, i, op):
         """returns ('R', value-or-coroutine) or ('L', line)"""
@@ -781,6 +859,9 @@ class Session:
             return "R", rt.sm.activate_initial_state()
         if op[0] == "add_listener":
             rt.sm.add_listener(self.listeners[op[1]])
+            if len(getattr(self, "ctor_list", [])) != getattr(self, "ctor_len", 0):
+                rt.lines.append("X the list passed as listeners= to the constructor was modified by add_listener")
+                self.ctor_len = len(self.ctor_list)
             return "R", None
         if op[0] == "allowed":
             try:
